@@ -25,10 +25,35 @@ def axisRun (n m q : Nat) (A : (Nat → K) → Nat → K) : El K → El K :=
   fun x _ o => A (fun k => x 0 ((o / (m * q) * n + k) * q + o % q)) ((o / q) % m)
 
 /-- PartialDerivative(S, axis, method=me, pad_mode=pa, pad_const=0) with cell side `dx` along
-`axis` (axis length `n`, `q` = product of the later axes), and its coded adjoint. -/
-def Leaf.partialDeriv (S : Space K) (n q : Nat) (me : Method) (pa : Pad) (dx : K) : Leaf K :=
-  .opaque false S S (axisRun n n q (fd den (tbl me pa) n 0 dx))
+`axis` (axis length `n`, `q` = product of the later axes), and its coded adjoint.  `D`, `R` are
+two descriptions of the same space `S` (they differ only when the operator is a block of a
+product-space operator: component of the domain / of the range). -/
+def Leaf.partialDeriv (D R : Space K) (n q : Nat) (me : Method) (pa : Pad) (dx : K) : Leaf K :=
+  .opaque false D R (axisRun n n q (fd den (tbl me pa) n 0 dx))
     (fun y j o => -(axisRun n n q (fd den (tbl (adjMethod me) (adjPad pa)) n 0 dx) y j o))
+
+/-- `Gradient(S, method, pad_mode)` into the power space `V = S^d`: component `a` is
+`finite_diff` along axis `a` with `dx[a]` — the block column of the `d` partial derivatives
+(`gradTree … d`; rows are added in the order of `Gradient._call`).  Its model adjoint (COO
+transposition, entries adjointed) acts like the coded `-Divergence(_ADJ_METHOD, _ADJ_PADDING)`:
+compared exactly with the real code on the stream `model/gradient`. -/
+def gradTree (S V : Space K) (sh : List Nat) (me : Method) (pa : Pad) (dx : Nat → K) :
+    Nat → Impl K
+  | 0 => .pnil .bcast S V
+  | a + 1 => .pcons a 0
+      (.leaf (Leaf.partialDeriv (S.comp 0) (V.comp a) (sh.getD a 0) (shProd (sh.drop (a + 1)))
+        me pa (dx a)))
+      (gradTree S V sh me pa dx a)
+
+/-- `Divergence(V = S^d → S, method, pad_mode)`: `out = tmp₀; out += tmp_a` — the block row of
+the partial derivatives; the coded adjoint is `-Gradient(_ADJ_METHOD, _ADJ_PADDING)`. -/
+def divTree (V S : Space K) (sh : List Nat) (me : Method) (pa : Pad) (dx : Nat → K) :
+    Nat → Impl K
+  | 0 => .pnil .red V S
+  | a + 1 => .pcons 0 a
+      (.leaf (Leaf.partialDeriv (V.comp a) (S.comp 0) (sh.getD a 0) (shProd (sh.drop (a + 1)))
+        me pa (dx a)))
+      (divTree V S sh me pa dx a)
 
 end
 end OdlModel.Adjoint
